@@ -81,6 +81,20 @@ func c19Lockstep(r *rt.Rec, rng *rand.Rand, n, steps int) {
 		for k := 0; k < 8; k++ {
 			pool = append(pool, rd{qs[rng.Intn(len(qs))], c19Options(rng)})
 		}
+		// pairs whose windows differ only in the fraction of a second
+		for k := 0; k < 2; k++ {
+			b := pool[rng.Intn(len(pool))]
+			lo := &storage.LookupOptions{}
+			lo2 := &storage.LookupOptions{}
+			whole, frac := gen.T3.Truncate(time.Second), gen.T3 // 23:59:59 and 23:59:59.5
+			if k == 0 {
+				lo.UpperAnchor, lo2.UpperAnchor = &whole, &frac
+			} else {
+				after := frac.Add(time.Nanosecond)
+				lo.LowerAnchor, lo2.LowerAnchor = &frac, &after
+			}
+			pool = append(pool, rd{b.q, lo}, rd{b.q, lo2}, rd{ref.Query{Method: "Triples"}, lo}, rd{ref.Query{Method: "Triples"}, lo2})
+		}
 		// pairs differing only in Offset
 		for k := 0; k < 3; k++ {
 			b := pool[rng.Intn(len(pool))]
